@@ -142,6 +142,10 @@ func LoadProgram(repo string) (*Program, error) {
 			}
 		}
 	}
+	specTypeRenames = typeRenames(modPkgs, readShapes())
+	for o, n := range specTypeRenames {
+		P.Rebound = append(P.Rebound, fmt.Sprintf("type %s renamed to %s in the contracts", o, n))
+	}
 	P.Spec = &SpecFile{Defs: map[string]*SpecDef{}}
 	for _, p := range modPkgs {
 		if !inModule(p.Types) {
